@@ -228,6 +228,21 @@ func capturedWrites(info *types.Info, pkgScope *types.Scope, fl *ast.FuncLit) []
 					}
 				}
 			}
+			// cache.Store(v), cnt.Add(1), m.LoadOrStore(k, v): a mutating method of a sync/atomic or
+			// sync.Map value captured from the generator - synchronised, but still state shared by
+			// every execution of the statement (a per-call-site memo)
+			if se, ok := unparen(x.Fun).(*ast.SelectorExpr); ok {
+				if f, ok := info.Uses[se.Sel].(*types.Func); ok && f.Pkg() != nil && (f.Pkg().Path() == "sync/atomic" || f.Pkg().Path() == "sync") {
+					switch f.Name() {
+					case "Store", "Swap", "CompareAndSwap", "Add", "And", "Or", "LoadOrStore", "LoadAndDelete", "Delete", "CompareAndDelete":
+						if id, ok := unparen(se.X).(*ast.Ident); ok {
+							if cv := captured(id); cv != nil {
+								out = append(out, capWrite{Pos: x.Pos(), Var: cv, What: f.Pkg().Name() + " " + f.Name() + " on the captured variable " + id.Name})
+							}
+						}
+					}
+				}
+			}
 			if id, ok := unparen(x.Fun).(*ast.Ident); ok {
 				if b, ok := info.Uses[id].(*types.Builtin); ok && len(x.Args) > 0 {
 					switch b.Name() {
